@@ -11,6 +11,7 @@ from . import _cfdp as C
 from . import c02, c03
 
 SCRIBBLE = True
+THOROUGH_SCALE = 1
 ID = "C04"
 LEVEL = "fault_enumeration"
 SHARDS = {"quick": 1, "thorough": 16}
